@@ -1,5 +1,6 @@
 """Configuration generator: JSON-able specs of whole HMS runs (every choice from one PRNG), and the
 builder that turns a spec into pyhms objects.  Specs are what replay files store."""
+import json
 import math
 import random
 
@@ -34,6 +35,9 @@ def make_objective(o, dim):
     elif kind == "nanhole":  # undefined (NaN) on part of the box, a shifted sphere elsewhere: only used by forced batches (C12 size, C19 RNG)
         thr = float(o["nan_below"])
         f = lambda x: float("nan") if x[0] < thr else float(np.sum((x - sh) ** 2))
+    elif kind == "infwall":   # a hard-constraint penalty: +inf (a legitimate, non-NaN value) on part of the box, a shifted sphere elsewhere
+        thr = float(o["inf_below"])
+        f = lambda x: float("inf") if x[0] < thr else float(np.sum((x - sh) ** 2))
     elif kind == "zero":
         f = lambda x: 0.0
     elif kind == "zerobest":  # optimum value exactly 0.0 at the shift, positive elsewhere (min) — exercises "best == 0.0"
@@ -75,12 +79,15 @@ def gen_box(rng, dim, style=None):
 
 
 def gen_objective(rng, dim, box, maximize, kind=None):
-    kind0 = rng.choice(["sphere", "sphere", "funnel", "rastrigin", "linear", "plateau", "zero", "zerobest", "funnel"])
+    kind0 = rng.choice(["sphere", "sphere", "funnel", "rastrigin", "linear", "plateau", "zero", "zerobest", "funnel", "infwall", "sphere", "funnel"])
     kind = kind or kind0
     o = {"kind": kind}
     inside = [lo + rng.random() * (hi - lo) for lo, hi in box]
     if kind in ("sphere", "rastrigin", "plateau", "zerobest"):
         o["shift"] = inside if rng.random() < 0.7 else [lo - 0.3 * (hi - lo) for lo, hi in box]  # optimum outside the box
+    if kind == "infwall":
+        o["shift"] = inside
+        o["inf_below"] = box[0][0] + rng.choice([0.15, 0.3]) * (box[0][1] - box[0][0])
     if kind == "nanhole":
         o["shift"] = inside
         o["nan_below"] = box[0][0] + rng.choice([0.2, 0.35, 0.5]) * (box[0][1] - box[0][0])
@@ -224,6 +231,8 @@ def gen_spec(seed, **force):
         spec["hibernation"] = False
     spec["random_seed"] = rng.randint(0, 10 ** 6)
     spec["wrappers"] = force.get("wrappers") or rng.choice(["none", "none", "counting", "stats", "shared_counting"])
+    if spec["wrappers"] == "shared_counting" and rng.random() < 0.5:
+        spec["pre_evals"] = rng.randint(1, 4)
     if spec["wrappers"] == "cutoff" and spec["gsc"]["kind"] == "Precision":
         spec["wrappers"] = "none"      # the precision setting installs its own shared wrapper
     if spec["wrappers"] == "cutoff":
@@ -317,6 +326,8 @@ def build(spec, objective_wrapper=None, session=None):
         elif w == "shared_counting":
             if shared is None:
                 shared = EvalCountingProblem(p)
+                for _ in range(spec.get("pre_evals", 0)):      # the user evaluates a few reference points through the wrapper before building the tree
+                    shared.evaluate(np.array([(lo + hi) / 2 for lo, hi in spec["box"]]))
             p = shared
         problems.append(p)
         info["base"].append(base)
@@ -446,10 +457,19 @@ def build(spec, objective_wrapper=None, session=None):
                 dfs.append(FarEnough(f["d"], f["ord"]))
             elif f["kind"] == "NBC_FarEnough":
                 dfs.append(NBC_FarEnough(f["f"], f["ord"], f["only_active"]))
+            elif f["kind"] == "Mahalanobis":
+                from pyhms.sprout.sprout_filters import MahalanobisFarEnough
+                dfs.append(MahalanobisFarEnough(f["p"]))
             else:
                 dfs.append(DemeLimit(f["n"]))
         tfs = [LevelLimit(f["n"]) if f["kind"] == "LevelLimit" else SkipSameSprout() for f in s["tree_filters"]]
         mech = SproutMechanism(gen, dfs, tfs)
+    if session is not None and info.get("gsc_inner") is not None:
+        key_ = json.dumps(spec["gsc"], sort_keys=True)
+        if session.get("gsc_key") == key_ and "gsc" in session:
+            gsc = session["gsc"]           # the very same stop-condition object serves the next tree (a benchmark loop)
+        else:
+            session["gsc_key"], session["gsc"] = key_, gsc
     if session is not None:
         # a session of several trees in one process: the same sprout-mechanism object is handed to every tree of the session
         if "mech" in session:
